@@ -563,6 +563,27 @@ pub fn c19_e2e(bin: &str, seed: u64, quick: bool) -> (E2eResult, u64, u64) {
                             }
                         }
                     }
+                    // probe 5: expiry slack strictly between the policy delta and policy delta + safety
+                    // delta: the safety margin, not the policy cap, must bound maxdelay
+                    if cd >= 2 && pd as u64 + (cd as u64) / 2 <= 60000 {
+                        let inv5 = new_invoice(&mut rng, Some(amount), Hints::None);
+                        s.preimages.insert(hex::encode(inv5.hash), inv5.preimage);
+                        let rel = pd + cd / 2;
+                        let before = s.pays_seen.len();
+                        s.send_doc(&hook("p5", tramp_request(&inv5, 5, need, need, height + rel, height)), 0);
+                        let wres = s.wait_or_ping(|s| s.reply("p5").is_some(), Duration::from_secs(8));
+                        if wres == Wait::Done && s.pays_seen.len() > before {
+                            let p = s.pays_seen.last().unwrap().clone();
+                            let want = ((rel - cd) as u64).min(pd as u64);
+                            let mut g = acc.lock().unwrap();
+                            g.e("R19b-margin", 1);
+                            if p["maxdelay"].as_u64() != Some(want) {
+                                g.v("R19b|safety-margin-not-applied", format!("{a:?}: relative expiry {rel}: pay.maxdelay {} expected min({rel}-{cd},{pd})={want}", p["maxdelay"]));
+                            }
+                        } else if wres == Wait::TooSlow {
+                            acc.lock().unwrap().inconclusive.push("mpp probe: session too slow to judge".into());
+                        }
+                    }
                     // probe 4: self route hint with the flag set => failed at once (2002)
                     if a.noself {
                         let inv4 = new_invoice(&mut rng, Some(amount), Hints::SelfLast);
